@@ -46,8 +46,8 @@ PROPS = {
         kani=[],
     ),
     'C04': dict(
-        units=[('event', r'(parse_event|frame_close|frame_open|last_id|with_capacity|push_null|Data::len|PortData::len|Frame::len|lemma_|C04)'),
-               ('codec_mut', r'(push_null|with_capacity)')],
+        units=[('event', r'(parse_event|frame_close|frame_open|last_id|with_capacity|push_null|Data::len|PortData::len|Frame::len|lemma_|C04)', r'(parse_event__(pre|post|start|item|end)|frame_close|frame_open)$'),
+               ('codec_mut', r'(push_null|with_capacity)'), ('reader', r'(C04)')],
         kani=[],
     ),
     'C05': dict(
@@ -77,7 +77,7 @@ PROPS = {
         kani=[],
     ),
     'C08': dict(
-        units=[('event', r'(parse_event__other|parse_event__splitter|C08)'), ('codec_mut', r'(read_push)'), ('reader', r'(C10\.skip_lands_on_game_end)'), ('startend', r'(if_more|C05\.tail|C05\.length_classes)')],
+        units=[('event', r'(parse_event__other|parse_event__splitter|C08)', r'parse_event__(other|splitter)$'), ('codec_mut', r'(read_push)'), ('reader', r'(C10\.skip_lands_on_game_end)'), ('startend', r'(if_more|C05\.tail|C05\.length_classes)')],
         kani=[],
     ),
     'C09': dict(
